@@ -440,7 +440,8 @@ func ifaceAction(e reflect.Value) of.Action {
 }
 
 // addrValues walks a parsed message and checks every match-field payload that
-// holds an address in a Go address type: a net.IP must be a valid address value
+// holds one exported integer (of the width it encodes to: the field is the wire
+// value) or an address in a Go address type: a net.IP must be a valid address value
 // (4 or 16 bytes) and denote the bytes the payload encodes to, a
 // net.HardwareAddr must be those bytes. The tree comparison reads payloads
 // through their own encoders, which copy a fixed number of bytes and so cannot
@@ -479,6 +480,14 @@ func addrValues(v any) string {
 			case net.HardwareAddr:
 				if !bytes.Equal(a, enc) {
 					bad = fmt.Sprintf("%T holds a net.HardwareAddr of %d bytes (%x) for the %d wire bytes %x", pl, len(a), []byte(a), len(enc), enc)
+				}
+			case uint8, uint16, uint32, uint64:
+				// an integer payload whose encoding has the integer's own width holds the wire value itself
+				fv := pv.Field(0)
+				if w := int(fv.Type().Size()); w == len(enc) {
+					if got := getN(enc, 0, w); got != fv.Uint() {
+						bad = fmt.Sprintf("%T holds %#x for the wire bytes %x", pl, fv.Uint(), enc)
+					}
 				}
 			}
 		}
